@@ -164,11 +164,32 @@ theorem updateExpired_shiftF (δ : Int) (f : FdtRecv σ) (now : Int) (hn : TimeS
 
 /-! ### `FdtReceiver::push` commutes with the shift -/
 
+theorem shiftF_bytes (δ : Int) (f : FdtRecv σ) : (shiftF δ f).bytes = f.bytes := by
+  unfold shiftF; split <;> rfl
+
 theorem shiftF_applyWEv (δ : Int) (ans : FdtAns) (g : FdtRecv σ) (e : WEv) :
     shiftF δ (g.applyWEv ans e) = (shiftF δ g).applyWEv ans e := by
-  cases g with
-  | mk fdtId obj st0 expires inst utf8 offset late check hasMeta bytes =>
-    cases offset <;> cases e <;> (try cases ans) <;> rfl
+  cases e with
+  | complete =>
+    simp only [FdtRecv.applyWEv, shiftF_st]
+    by_cases h : g.st = .error
+    · rw [if_pos h, if_pos h]
+    · rw [if_neg h, if_neg h]
+      cases g with
+      | mk fdtId obj st0 expires inst utf8 offset late check hasMeta bytes =>
+        cases offset <;> cases ans <;> rfl
+  | write sbn len =>
+    simp only [FdtRecv.applyWEv, shiftF_bytes]
+    by_cases h : g.bytes + len > maxFdtSize
+    · rw [if_pos h, if_pos h]
+      cases g with
+      | mk fdtId obj st0 expires inst utf8 offset late check hasMeta bytes => cases offset <;> rfl
+    · rw [if_neg h, if_neg h]
+      cases g with
+      | mk fdtId obj st0 expires inst utf8 offset late check hasMeta bytes => cases offset <;> rfl
+  | _ =>
+    cases g with
+    | mk fdtId obj st0 expires inst utf8 offset late check hasMeta bytes => cases offset <;> rfl
 
 theorem shiftF_applyWEvs (δ : Int) (ans : FdtAns) (g : FdtRecv σ) (evs : List WEv) :
     shiftF δ (g.applyWEvs ans evs) = (shiftF δ g).applyWEvs ans evs := by
